@@ -502,6 +502,12 @@ def run_impl(engine, cases, pid, debug_assertions=False, timeout=1800, extra_env
                 except Exception:
                     got.append({"error": "unparsable: " + l[:200]})
             got = got[:len(todo)]
+            if got and isinstance(got[-1], dict) and "hang" in got[-1]:
+                # the harness's watchdog ended the process on a case that did not return: reported like a crash, rest re-run
+                got[-1] = {"crash": "hang: " + got[-1]["hang"], "_us": got[-1].get("_us", 0)}
+                res += got
+                todo = todo[len(got):]
+                continue
             res += got
             if len(got) < len(todo):
                 res.append({"crash": "process ended with status %s while working on this case: %s" % (rc, se[-600:])})
